@@ -118,7 +118,7 @@ def plan(tier, seed):
     api = [("api", ("k", k), UNSORTED[n.n]) for k, n in K.items() if n.n in UNSORTED and len(n.sd[0]) >= 2 and n.n <= 4]
     api += [("api", ("idx", 2, i), UNSORTED[2]) for i in U2 if c04.sd_size(("idx", 2, i)) >= 3]
     units = [("hist", [s], 1 if len(U.resolve(s).sd[0]) <= 4 else 0) for s in api]
-    units += [("hist", [s], d) for s in nets] + [("hist", ch, 0) for ch in U.chunks(f3, 4)] + [("hist", ch, 1 if tier != "quick" else 0) for ch in U.chunks(u2f, 3)]
+    units += [("hist", [s], d if (tier == "quick" or c04.sd_size(s) <= 3) else 1) for s in nets] + [("hist", ch, 0) for ch in U.chunks(f3, 4)] + [("hist", ch, 1 if tier != "quick" else 0) for ch in U.chunks(u2f, 3)]
     big = [("k", k) for k, n in K.items() if n.n > 4] if tier == "quick" else []
     units += [("hist", [s], 0) for s in big]
     units.sort(key=lambda u: -u[2])
@@ -141,7 +141,7 @@ def plan(tier, seed):
 def explore_net(net, spec, depth, res):
     vio = []
     if depth:
-        ex = Explorer(net, lambda n, s: full_ops(n, s), None, config=CONFIG, max_states=300)
+        ex = Explorer(net, lambda n, s: full_ops(n, s), None, config=CONFIG, max_states=300 if depth < 2 else 120)
         states = ex.run(depth=depth)
         res["states"] += len(ex.states)
         res["transitions"] += ex.transitions
